@@ -24,7 +24,7 @@ CAT_NOT_UNIQUE, INVALID_CATEGORY, NOSUCH_LOOP, RESERVED_LOOP, WRONG_LOOP, EMPTY_
 DUP_ITEM, INVALID_ITEM, NOSUCH_ITEM, AMBIGUOUS_ITEM, INVALID_PACKET = 41, 42, 43, 44, 52
 
 F30_CLASS = "add_packet-omitted-items-not-stored"
-F32_CLASS = "set_category-null-takes-scalar-category"
+F32_CLASS = "set_category-null-takes-scalar-category"   # F34, fixed by 95b7b25: no open entry any more
 
 
 def norm(s):
